@@ -9,7 +9,7 @@ from h4verif import sdmodel as sm
 PROPERTY = "C07"
 LEVEL = "exploration"
 NEED = ("h4x",)
-RULE = ("schemas of 1..7 uniquely named fields over all 10 number types with orders 1..5 (one regime with an order "
+RULE = ("schemas of 1..7 uniquely named fields (one schema in four with names that are prefixes of one another) over all 10 number types with orders 1..5 (one regime with an order "
         "up to 300 / record sizes up to several KB), optional VSsetblocksize/VSsetnumblocks, optional name/class; "
         "histories of VSwrite (FULL or NO_INTERLACE user buffers, 1..60 records or bursts crossing the 1 MB transfer "
         "buffer / linked-block growth), VSseek, overwrite, append, VSread of any field subset/permutation in either "
@@ -46,6 +46,11 @@ def strategy_(draw, tier):
         if wide and i == 0:
             order = draw(st.sampled_from([100, 300]))
         fields.append(["f%d_%s" % (i, nt[:2]), nt, order])
+    if draw(st.integers(0, 3)) == 0 and nf >= 2:
+        # names related by prefix / differing in case or in the last character only, longer name first
+        pool = draw(st.permutations(["temp_max", "temp", "te", "idx", "id", "Temp", "temp_min"]))
+        for i in range(nf):
+            fields[i][0] = pool[i]
     ops = []
     nrec = 0
     for _ in range(draw(st.integers(2, 14))):
